@@ -889,3 +889,30 @@ Proof.
     + apply nodupb_sound. exact H3.
     + rewrite Forall_forall. rewrite forallb_forall in H4. intros c Hc. apply descb_sound. auto.
 Qed.
+
+(* a stored row is a fixpoint of scrubbing: an unfiltered read (which scrubs what it returns)
+   hands out the stored row verbatim *)
+Lemma sort_cols_sorted_id l : qsorted l -> sort_cols l = l.
+Proof.
+  induction l as [|c r IH]; intros Hs; [reflexivity|].
+  destruct Hs as [Hc Hr]. change (sort_cols (c :: r)) with (insert_col c (sort_cols r)).
+  rewrite IH by exact Hr. destruct r as [|d r']; [reflexivity|]. cbn [insert_col].
+  assert (Hlt : lex_lt (col_q c) (col_q d)) by (apply Hc; left; reflexivity).
+  unfold lex_ltb. unfold lex_lt in Hlt. rewrite Hlt. reflexivity.
+Qed.
+
+Theorem scrub_stored_id : forall tf fs, stored_ok tf fs -> scrub_fams tf fs = fs.
+Proof.
+  intros tf fs [_ Hst]. unfold scrub_fams. rewrite Forall_forall in Hst.
+  rewrite (filter_all (fun f => known_family tf (fam_name f)) fs) by (intros f Hf; apply (Hst f Hf)).
+  assert (Hmap : map scrub_fam fs = fs).
+  { induction fs as [|f r IH]; [reflexivity|]. cbn [map]. f_equal.
+    - destruct (Hst f (or_introl eq_refl)) as [_ [_ [Hcells Hq]]]. unfold scrub_fam.
+      rewrite filter_all.
+      + rewrite sort_cols_sorted_id by exact Hq. destruct f; reflexivity.
+      + rewrite Forall_forall in Hcells. intros c Hc. specialize (Hcells c Hc).
+        destruct (col_cells c); [contradiction|reflexivity].
+    - apply IH. intros g Hg. apply Hst. right. exact Hg. }
+  rewrite Hmap. apply filter_all. intros f Hf. destruct (Hst f Hf) as [_ [Hne _]].
+  destruct (fam_cols f); [contradiction|reflexivity].
+Qed.
